@@ -1278,3 +1278,43 @@ SUBCHECKS = [
 # kept in a place two calls share shows only there
 SUBCHECKS.append(__import__('harness.core', fromlist=['overlapped']).overlapped(next(s for s in SUBCHECKS if s.name == 'random'), k=4, n=(80, 4000)))
 SUBCHECKS.append(__import__('harness.core', fromlist=['overlapped']).overlapped(next(s for s in SUBCHECKS if s.name == 'string-framing'), k=4, n=(40, 2000), name='two-threads-strings'))
+
+
+def check_hammer(case):
+    """block ids and TL values prepared one after the other; their conversions are then made by 4 threads in tight loops at the same
+    time (core.hammer): each call returns what it returns alone"""
+    from harness.core import hammer
+    from pytoniq_core.tl.block import BlockId, BlockIdExt
+    calls = []
+    for c in case['ids']:
+        wc, shard, seqno = c['wc'], c['shard'], c['seqno']
+        root, file = bytes.fromhex(c['root']), bytes.fromhex(c['file'])
+        ok, x = call(BlockIdExt, wc, shard, seqno, root, file)
+        if not ok:
+            continue
+        ok, raw = call(x.to_bytes)
+        calls.append(('BlockIdExt.to_bytes', lambda x=x: bytes(x.to_bytes())))
+        calls.append(('BlockIdExt.to_dict', lambda x=x: sorted((k, v if not isinstance(v, (bytes, bytearray)) else bytes(v).hex()) for k, v in x.to_dict().items())))
+        calls.append(('hash(BlockIdExt)', lambda x=x: hash(x)))
+        if ok:
+            calls.append(('BlockIdExt.from_bytes', lambda raw=bytes(raw): (lambda y: (y.workchain, y.shard, y.seqno, bytes(y.root_hash), bytes(y.file_hash)))(BlockIdExt.from_bytes(raw))))
+        ok, b = call(BlockId, wc, shard, seqno)
+        if ok:
+            calls.append(('BlockId.to_dict', lambda b=b: sorted(b.to_dict().items())))
+    g, schemas = _schemas()
+    for c in case['ids'][:2]:
+        blk = {'workchain': c['wc'], 'shard': -2 ** 63 if c['shard'] is None else c['shard'], 'seqno': c['seqno'], 'root_hash': c['root'], 'file_hash': c['file']}
+        ok, data = call(lambda: schemas.serialize(schemas.get_by_name('tonNode.blockIdExt'), blk))
+        calls.append(('TlSchemas.serialize', lambda blk=blk: bytes(schemas.serialize(schemas.get_by_name('tonNode.blockIdExt'), dict(blk)))))
+        if ok:
+            calls.append(('TlSchemas.deserialize', lambda data=bytes(data): repr(schemas.deserialize(data))))
+    if len(calls) < 2:
+        return None
+    return hammer(calls, threads=4, rounds=25)
+
+
+SUBCHECKS.append(Sub('two-threads-conversions', check_hammer,
+                     strategy=lambda tier: st.lists(strat_blockid(tier), min_size=3, max_size=4).map(lambda cs: {'ids': cs}),
+                     classify=lambda case: ['ids=%d' % len(case['ids'])], nontrivial=lambda case: True, n=(60, 2000), shards=(8, 16),
+                     note='to_bytes / from_bytes / to_dict / hash of 3-4 block ids and TL (de)serialisation of two of them, made by 4 threads '
+                          'in tight loops at the same time; oracle = what each call returns alone'))
